@@ -151,17 +151,21 @@ class ExpandedTraceback:
         """
         Filter out unnecessary frames
         """
-        if not self.exception:
+        if self.exception is None:
             return []
         cl, exc, tb = self.exc_info
         while tb and self._is_relevant_tb_level(tb):
             tb = tb.tb_next
         length = self._count_relevant_tb_levels(tb)
-        tb_e = traceback.TracebackException(cl, self.exception, tb, limit=length,
-                                            capture_locals=False)
-        for frame in tb_e.stack:
+        try:
+            stack = traceback.TracebackException(cl, self.exception, tb, limit=length,
+                                                 capture_locals=False).stack
+        except Exception:
+            # The exception object itself may misbehave (e.g., a __bool__ that raises)
+            stack = traceback.extract_tb(tb, limit=length)
+        for frame in stack:
             self._fix_frame_line(frame)
-        frames = list(tb_e.stack)
+        frames = list(stack)
         # A SyntaxError has to be handled differently to actually get its output:
         # https://docs.python.org/3/library/traceback.html#traceback.print_exception
         if isinstance(self.exception, SyntaxError) and self.exception.lineno is not None:
